@@ -24,7 +24,9 @@ RULE = (
     'dropped, effective-only / valid-only properties, href form, variable resolution); numbers and hashes compare by '
     'value; assignments touching only layout preferences keep the non-white-space token sequence of the default output; '
     'useDefaults() restores the default output byte for byte - of every rule serialised on its own first (rule.cssText is a string '
-    'under every assignment), then of the sheet. special: indentSpecificities / lineNumbers with other preferences over the same DOMs '
+    'under every assignment), then of the sheet. In half of the cases a second DOM is reached by edits: every top-level rule of the '
+    'sheet as written (literal, escaped, upper-case keywords) takes the text of its normalised twin; under the same preferences it '
+    'must be written byte for byte like the sheet parsed from the normalised text, rule by rule and as a whole. special: indentSpecificities / lineNumbers with other preferences over the same DOMs '
     'plus ladders of selectors of growing specificity (a, a.x, a.x#y, ..., optionally inside @media): no exception, layout only, '
     'defaults restore for parts and sheet. Non-trivial: >= 2 non-default preferences and the DOM holds '
     'an item at least one of them affects; distinct by (preferences, DOM).'
@@ -69,7 +71,7 @@ def prefs_strategy(draw):
     return {n: draw(st.sampled_from(ALLPREFS[n])) for n in chosen}
 
 
-case_strategy = st.fixed_dictionaries({'model': A.sheet(max_body=4), 'seed': st.integers(0, 2 ** 30), 'prefs': prefs_strategy()})
+case_strategy = st.fixed_dictionaries({'model': A.sheet(max_body=4), 'seed': st.integers(0, 2 ** 30), 'prefs': prefs_strategy(), 'edit': st.booleans()})
 
 
 def apply_prefs(p):
@@ -382,6 +384,36 @@ def check(case, ctx):
                     want = 'STRING' if fmt == 'string' else 'URI'
                     if toks[i + 1][0] != want:
                         raise Violation('effect:importHrefFormat', f'prefs {prefs}: {toks[i:i + 2]}')
+        # a DOM reached by accepted edits: every top-level rule of the sheet as written takes the text of its normalised twin;
+        # under the same preferences it must then be written like the sheet parsed from the normalised text
+        if case.get('edit'):
+            try:
+                fresh = cssutils.CSSParser(fetcher=fetcher).parseString(default_out, href='http://example.com/s.css')
+                edited = cssutils.CSSParser(fetcher=fetcher).parseString(text, href='http://example.com/s.css')
+                same = len(fresh.cssRules) == len(edited.cssRules)
+                if same:
+                    for ra, rb in zip(edited.cssRules, fresh.cssRules):
+                        if ra.type != rb.type:
+                            same = False
+                            break
+                        ra.cssText = rb.cssText
+                same = same and edited.cssText == fresh.cssText
+                if same:
+                    apply_prefs(prefs)
+                    oa, ob = edited.cssText, fresh.cssText
+                    parts_a, parts_b = [r.cssText for r in edited.cssRules], [r.cssText for r in fresh.cssRules]
+            except Exception as e:  # noqa: BLE001
+                raise Violation('crash:edited:' + frame_sig(e), f'prefs {prefs}: {text[:300]!r}: {e!r}')
+            finally:
+                cssutils.ser.prefs.useDefaults()
+            if same:
+                ctx.event('edited-dom-compared')
+                if oa != ob or parts_a != parts_b:
+                    i = next((i for i, (x, y) in enumerate(zip(parts_a, parts_b)) if x != y), None)
+                    raise Violation('edited:differs-from-fresh-parse', f'prefs {prefs}: source {text[:300]!r}: after every rule took its normalised text '
+                                    f'{(parts_a[i], parts_b[i]) if i is not None else (oa[:200], ob[:200])}')
+            else:
+                ctx.event('edited-dom-not-comparable')
         nondefault = [k for k in prefs if prefs.get('__minified__') or prefs[k] != ALLPREFS.get(k, [None])[0]]
         affected = out != default_out
         for k in prefs:
